@@ -87,6 +87,34 @@ func mapCombo(req obj, init map[string]int, key string, v int) combo {
 			m[k] = x
 		}
 		l := optics.NewLensM[map[string]int, string, int](key)
+		// a Getter over the map lens never writes: its Put leaves the map as it is - no key appears, no value
+		// changes (folded into "same" below: the observation "Put returned its argument, untouched where it must be")
+		gm := map[string]int{}
+		for k, x := range init {
+			gm[k] = x
+		}
+		gl := optics.Getter(l, func(x int) int { return x + 1 })
+		gr := gl.Put(&gm, v)
+		getterQuiet := gr == &gm && len(gm) == len(init)
+		for k, x := range init {
+			if y, ok := gm[k]; !ok || y != x {
+				getterQuiet = false
+			}
+		}
+		// ... and a Getter over a Setter reads nothing and writes nothing
+		sm := map[string]int{}
+		for k, x := range init {
+			sm[k] = x
+		}
+		optics.Getter(optics.Setter(l, func(x int) int { return x + 2 }), func(x int) int { return x + 3 }).Put(&sm, v)
+		if len(sm) != len(init) {
+			getterQuiet = false
+		}
+		for k, x := range init {
+			if sm[k] != x {
+				getterQuiet = false
+			}
+		}
 		g0 := l.Get(&m)
 		r := l.Put(&m, v)
 		g1 := l.Get(&m)
@@ -99,7 +127,7 @@ func mapCombo(req obj, init map[string]int, key string, v int) combo {
 		for _, k := range keys {
 			after = append(after, [2]any{k, m[k]})
 		}
-		return obj{"panic": false, "get0": g0, "get1": g1, "same": r == &m, "after": after}
+		return obj{"panic": false, "get0": g0, "get1": g1, "same": r == &m && getterQuiet, "after": after}
 	}}
 }
 
